@@ -6,7 +6,8 @@
 (* SnapshotPipe.tla / RestorePipe.tla are evaluated on every event:        *)
 (*   P:InFlightBound        at most N backend transfers outstanding        *)
 (*   P:GetAfterPut, P:ChunkDoneOnce, P:CommitAfterAllChunks  (snapshot)    *)
-(*   P:FinalisedOnce, P:FinaliseAfterWrites                  (restore)     *)
+(*   P:FinalisedOnce, P:FinaliseAfterWrites, P:WritesExclusivePerFile      *)
+(*                                                           (restore)     *)
 (*   P:NoSpuriousError, P:Terminates, P:SameAsSequential, P:SlotsRestored  *)
 (***************************************************************************)
 EXTENDS Naturals, Sequences, FiniteSets, TLC, TLCExt, Json, IOUtils
@@ -18,14 +19,15 @@ Tr == Traces[tid]
 Ev == Tr.events
 NSlots == Tr.n
 
-State0 == [inflight |-> 0, put |-> {}, got |-> {}, done |-> {}, writes |-> [f \in 1..Tr.nfiles |-> 0], fin |-> {}]
+State0 == [inflight |-> 0, put |-> {}, got |-> {}, done |-> {}, writes |-> [f \in 1..Tr.nfiles |-> 0], fin |-> {}, writing |-> {}]
 Apply(s, e) ==
   CASE e.a = "call+" -> [s EXCEPT !.inflight = @ + 1]
     [] e.a = "call-" -> [s EXCEPT !.inflight = IF @ > 0 THEN @ - 1 ELSE 0]
     [] e.a = "put" -> [s EXCEPT !.put = @ \cup {e.k}]
     [] e.a = "get" -> [s EXCEPT !.got = @ \cup {e.k}]
     [] e.a = "chunk_done" -> [s EXCEPT !.done = @ \cup {e.k}]
-    [] e.a = "write" -> [s EXCEPT !.writes[e.f] = @ + 1]
+    [] e.a = "write.begin" -> [s EXCEPT !.writing = @ \cup {e.f}]
+    [] e.a = "write" -> [s EXCEPT !.writes[e.f] = @ + 1, !.writing = @ \ {e.f}]
     [] e.a = "utime" -> [s EXCEPT !.fin = @ \cup {e.f}]
     [] OTHER -> s
 
@@ -34,7 +36,10 @@ Clause(s, e) ==
     [] e.a = "get" -> IF e.k \notin s.put THEN "P:GetAfterPut" ELSE "ok"
     [] e.a = "chunk_done" -> IF e.k \in s.done THEN "P:ChunkDoneOnce" ELSE IF e.k \notin s.got THEN "P:GetAfterPut" ELSE "ok"
     [] e.a = "commit" -> IF s.done # 1..e.chunks \/ s.inflight # 0 THEN "P:CommitAfterAllChunks" ELSE "ok"
+    \* FileLocks.tla WritersExclusive: nobody else is inside the write section of that file (hooks write.begin ... write under the file's lock)
+    [] e.a = "write.begin" -> IF e.f \in s.writing THEN "P:WritesExclusivePerFile" ELSE "ok"
     [] e.a = "utime" -> IF e.f \in s.fin THEN "P:FinalisedOnce"
+                        ELSE IF e.f \in s.writing THEN "P:FinaliseAfterWrites"
                         ELSE IF s.writes[e.f] # Tr.expected[e.f] THEN "P:FinaliseAfterWrites" ELSE "ok"
     [] e.a = "end" -> IF e.hung THEN "P:Terminates"
                       ELSE IF ~e.ok /\ ~e.fault THEN "P:NoSpuriousError"
